@@ -2433,6 +2433,12 @@ class SymExec:
                 return True
             if kind == ('builtin', 'bool') and c == ('builtin', 'int'):
                 return True
+        # a grammar symbol is known by the *base* class of what it can hold: whether it is an instance of a proper
+        # subclass depends on the subtree that was parsed
+        if isinstance(fv, tuple) and fv and fv[0] == 'sym' and kind[0] == 'cls':
+            for c in cs:
+                if c[0] == 'cls' and c[1] != kind[1] and self.facts.is_subclass(c[1], kind[1]):
+                    return None
         return False
 
     def _construct(self, qual, args, kwargs, node, fr, eid):
